@@ -13,8 +13,9 @@ import (
 
 // Restore reads a protobuf-framed snapshot stream and writes
 // the resulting SQLite database to dstPath. If the stream contains
-// WAL files, they are checkpointed into the database. It returns the
-// number of bytes read from the stream.
+// WAL files, they are checkpointed into the database. The stream must end
+// where the header says the last file ends; data beyond that is an error.
+// It returns the number of bytes read from the stream.
 func Restore(r io.Reader, dstPath string) (int64, error) {
 	var totalRead int64
 
@@ -97,13 +98,40 @@ func Restore(r io.Reader, dstPath string) (int64, error) {
 			}
 			walFiles = append(walFiles, walPath)
 		}
+		if err := expectEOF(r); err != nil {
+			return totalRead, err
+		}
 		if err := db.ReplayWAL(dstPath, walFiles, false); err != nil {
 			return totalRead, fmt.Errorf("checkpointing WALs: %w", err)
 		}
 		for _, wf := range walFiles {
 			os.Remove(wf)
 		}
+	} else if err := expectEOF(r); err != nil {
+		return totalRead, err
 	}
 
 	return totalRead, nil
+}
+
+// expectEOF returns an error unless r is at end-of-stream. The header declares
+// exactly how many bytes follow it, so anything further means the header does
+// not describe the data in the stream (for example a damaged header which lost
+// a WAL entry), and restoring from a prefix of the stream would silently yield
+// a different database.
+func expectEOF(r io.Reader) error {
+	var b [1]byte
+	for range 100 {
+		n, err := r.Read(b[:])
+		if n > 0 {
+			return fmt.Errorf("unexpected trailing data after snapshot payload")
+		}
+		if err == io.EOF {
+			return nil
+		}
+		if err != nil {
+			return fmt.Errorf("reading end of snapshot stream: %w", err)
+		}
+	}
+	return io.ErrNoProgress
 }
